@@ -8,6 +8,8 @@ coq/gen/Gen_fmtbuf.v:
                                  explicit-root event is printed inside the thread's current spans) or `ctx.parent_span()` (false)
     on_record_atomic : bool      on_record takes `span.extensions_mut()` BEFORE it reads the stored FormattedFields and keeps it until
                                  add_fields has appended in place (concurrent record calls on one span are serialised)
+    record_unwind_poisons : bool on_record runs the recorded value's Debug under the extensions write guard AND the registry
+                                 unwraps the lock result (`.expect("Mutex poisoned")`): a caught panic there makes the span unusable
     gen_unrecognised : list string
 
 The model in Fmt/BufferModel.v hard-wires the rest of the protocol (thread-local `RefCell<String>`,
@@ -255,7 +257,20 @@ def analyse_on_record(repo):
     nsb = fn_body_in_impl(subs, r"impl<C, N, E, W> subscribe::Subscribe<C> for Subscriber<C, N, E, W>[^{]*\{", "on_new_span") or ""
     if "if extensions.get_mut::<FormattedFields<N>>().is_none()" not in nsb or nsb.count("extensions_mut()") != 1:
         unrec.append("on_new_span: the span's fields are not formatted once, under `extensions_mut()`, guarded by `is_none()`")
+    # registry/sharded.rs: SpanRef::extensions()/extensions_mut() unwrap the (std) lock result
+    reg = strip_comments(open(os.path.join(repo, "tracing-subscriber/src/registry/sharded.rs")).read())
+    nreg = norm(reg)
+    ext = 'fn extensions(&self) -> Extensions<\'_> { Extensions::new(self.inner.extensions.read().expect("Mutex poisoned")) }' in nreg
+    extm = 'fn extensions_mut(&self) -> ExtensionsMut<\'_> { ExtensionsMut::new(self.inner.extensions.write().expect("Mutex poisoned")) }' in nreg
+    recover = "into_inner" in "".join(m.group(0) for m in re.finditer(r"fn extensions(?:_mut)?\(&self\)[^}]*\}", norm(reg)))
+    if not (ext and extm) and not recover:
+        unrec.append("registry/sharded.rs: extensions()/extensions_mut() neither unwrap the lock result with .expect(\"Mutex poisoned\") nor recover it")
+    global _POISONS
+    _POISONS = bool(atomic and ext and extm)
     return atomic, unrec
+
+
+_POISONS = True
 
 
 def main(repo, out):
@@ -280,6 +295,9 @@ def main(repo, out):
         "",
         "(** %s on_record: the extensions write lock is held across read - append - store of the span's formatted fields. *)" % FILE,
         "Definition on_record_atomic : bool := %s." % ("true" if rec_atomic else "false"),
+        "",
+        "(** a caught panic of a recorded value's Debug impl poisons the span's extensions lock (std locks). *)",
+        "Definition record_unwind_poisons : bool := %s." % ("true" if _POISONS else "false"),
         "",
         "(** %s: Format<Pretty> looks its span up itself and falls back to the current span for an explicit root. *)" % FPRETTY,
         "Definition pretty_root_falls_back : bool := %s." % ("true" if pretty_fallback else "false"),
